@@ -54,15 +54,15 @@ func (c *FnCtx) typeFacts(st *State, t Term, gt types.Type) {
 	case *types.Basic:
 		if u.Info()&types.IsInteger != 0 && t.Sort == SInt {
 			lo, hi, _ := intRange(gt)
-			c.assume("", fmt.Sprintf("(and (<= %s %s) (<= %s %s))", lo, t.S, t.S, hi))
+			c.assume(c.tfGuard, fmt.Sprintf("(and (<= %s %s) (<= %s %s))", lo, t.S, t.S, hi))
 		}
 		if u.Info()&types.IsString != 0 {
-			c.assume("", fmt.Sprintf("(<= 0 %s)", t.S))
+			c.assume(c.tfGuard, fmt.Sprintf("(<= 0 %s)", t.S))
 		}
 	case *types.Pointer, *types.Map:
-		c.assume("", fmt.Sprintf("(and (<= 0 %s) (< %s %s))", t.S, t.S, st.alloc))
+		c.assume(c.tfGuard, fmt.Sprintf("(and (<= 0 %s) (< %s %s))", t.S, t.S, st.alloc))
 	case *types.Slice:
-		c.assume("", fmt.Sprintf("(and (<= 0 (sl_arr %s)) (< (sl_arr %s) %s) (<= 0 (sl_off %s)) (<= 0 (sl_len %s)) (<= (sl_len %s) (sl_cap %s)) (<= (sl_cap %s) 4611686018427387904) (=> (= (sl_arr %s) 0) (= (sl_cap %s) 0)))", t.S, t.S, st.alloc, t.S, t.S, t.S, t.S, t.S, t.S, t.S))
+		c.assume(c.tfGuard, fmt.Sprintf("(and (<= 0 (sl_arr %s)) (< (sl_arr %s) %s) (<= 0 (sl_off %s)) (<= 0 (sl_len %s)) (<= (sl_len %s) (sl_cap %s)) (<= (sl_cap %s) 4611686018427387904) (=> (= (sl_arr %s) 0) (= (sl_cap %s) 0)))", t.S, t.S, st.alloc, t.S, t.S, t.S, t.S, t.S, t.S, t.S))
 	case *types.Struct:
 		srt := c.sortOf(gt)
 		for i := 0; i < u.NumFields(); i++ {
@@ -488,9 +488,14 @@ func (c *FnCtx) unop(fr *frame, st *State, guard string, x *ssa.UnOp) interface{
 			t = c.named(t, "ld")
 			if strings.HasSuffix(c.get(st, p.Region), "@0") {
 				// never written in this function: the value is from the entry heap
+				// (only for objects of the entry heap: a fresh object of a callee that modifies nothing is
+				// read through the same region version)
 				es := *st
 				es.alloc = "alloc@0"
+				c.tfGuard = fmt.Sprintf("(and (<= 0 %s) (< %s alloc@0))", p.Ref, p.Ref)
 				c.loadFacts(&es, t)
+				c.tfGuard = ""
+				c.loadFacts(st, t)
 			} else {
 				c.loadFacts(st, t)
 			}
